@@ -16,10 +16,12 @@
 -/
 import MpProofs.IntFun
 import MpProofs.IntFunEuler
+import MpProofs.IntFunEulerFast
 import MpProofs.IntFunSieve
 import MpProofs.IntFunReach
 import MpProofs.IntFunNT
 import MpProofs.IntFunSqrt
+import MpProofs.IntFunRef
 import Mathlib.NumberTheory.ArithmeticFunction.Moebius
 
 namespace Mp
@@ -269,20 +271,36 @@ theorem eulernum_history_independent (c : IDict) (h : EulerReach c) (m : Int) (h
   FULL STATEMENT (not proved):
     theorem eulernum_spec (c) (h : EulerReach c) (m : Int) (hm : 0 ≤ m) : (eulernum m c).1 = some (eulerE m.toNat)
   What is missing: `eulerCacheVal n = eulerRet n = eulerE n` for ALL even n, i.e. the mathematics of the
-  van de Lune recurrence (`∑_j a(n,j) = 2^n · |E_n|`); it is checked (kernel evaluation, `eulerS_small`) for n ≤ 60.
+  van de Lune recurrence (`∑_j a(n,j) = 2^n · |E_n|`); it is checked (kernel evaluation, `eulerS_small100`) for n ≤ 100, which covers the
+  `n < 100` path of `mp.eulernum`.
 -/
-/-- `eulernum(m) = E_m` for `0 ≤ m ≤ 61`, after ANY call history (including histories that computed
+/-- `eulernum(m) = E_m` for `0 ≤ m ≤ 101`, after ANY call history (including histories that computed
 much larger Euler numbers). -/
-theorem eulernum_spec_partial (c : IDict) (h : EulerReach c) (m : Int) (hm : 0 ≤ m) (hm' : m ≤ 61) :
+theorem eulernum_spec_partial (c : IDict) (h : EulerReach c) (m : Int) (hm : 0 ≤ m) (hm' : m ≤ 101) :
     (eulernum m c).1 = some (eulerE m.toNat) := by
   by_cases ho : m % 2 = 1
   · rw [eulernum_odd m c ho, eulerE_odd _ (by omega)]
   · obtain ⟨j, hj⟩ : ∃ j : Nat, m.toNat = 2 * j := ⟨m.toNat / 2, by omega⟩
-    have hv := euler_values_small j (by omega)
+    have hv := euler_values_small100 j (by omega)
     rw [← hj] at hv
     rcases (eulernum_even m c (eulerReach_inv h) (by omega) hm).1 with h1 | h1
     · rw [h1, hv.1]
     · rw [h1, hv.2]
+
+/-! ## reference values of the float-path functions binomial / rf / ff (NOT models of the gammaprod code: the values the
+driver answers with, against which the real results are judged: exact when they fit, within 1 ulp otherwise) -/
+
+/-- the driver's `w_binomial` reference is the binomial coefficient. -/
+theorem binomial_ref_exact (n k : Nat) : binomialRef (n : Int) (k : Int) = (Nat.choose n k : Int) :=
+  binomialRef_eq_choose n k
+
+/-- the driver's `w_rf` reference is the rising factorial `x (x+1) ⋯ (x+n-1)`. -/
+theorem rf_ref_exact (x n : Nat) : rfRef (x : Int) n = (Nat.ascFactorial x n : Int) :=
+  rfRef_eq x n
+
+/-- the driver's `w_ff` reference is the falling factorial `x (x-1) ⋯ (x-n+1)`. -/
+theorem ff_ref_exact (x n : Nat) : ffRef (x : Int) n = (Nat.descFactorial x n : Int) :=
+  ffRef_eq x n
 
 /-! ## integer square roots (integer loops only; the floating-point initial estimates are parameters) -/
 
